@@ -515,3 +515,67 @@ Example omitempty_pointer_to_zero_survives :
   rbind (c_marshal t (GStruct [GPtr (Some (GStruct [GBool false]))])) (c_unmarshal t)
   = Ok (GStruct [GPtr (Some (GStruct [GBool false]))]).
 Proof. vm_compute. reflexivity. Qed.
+
+(* ------------------------------------------------------------------ *)
+(* the decoder on trees no encoder writes *)
+Section Unknown.
+  Variables num F : Type.
+  Variable int_of_num : num -> option Z.
+  Variable flt_of_num : num -> option F.
+  Variable fzero : F.
+  Notation dec := (dec num F int_of_num flt_of_num fzero).
+
+  Lemma eqfold_refl k : eqfold k k = true.
+  Proof. unfold eqfold. apply String.eqb_refl. Qed.
+
+  (* a member whose name equals no member name of the struct, even up to
+     case, is skipped: the result (value, saved error, abort) is that of the
+     object without it *)
+  Lemma dec_members_skip decf fs ms1 k j ms2 : forall vs,
+    (forall fd, In fd fs -> eqfold k (fd_json fd) = false) ->
+    dec_members num F decf fs (ms1 ++ (k, j) :: ms2) vs = dec_members num F decf fs (ms1 ++ ms2) vs.
+  Proof.
+    intros vs Hk. revert vs. induction ms1 as [|[k1 j1] ms1 IH]; intro vs.
+    - simpl.
+      assert (existsb (fun fd => String.eqb k (fd_json fd)) fs = false) as Hex.
+      { apply not_true_is_false. intro E. apply existsb_exists in E. destruct E as [fd [Hin He]].
+        apply String.eqb_eq in He. specialize (Hk fd Hin). rewrite <- He, eqfold_refl in Hk. discriminate. }
+      rewrite Hex. rewrite upd_slot_miss; [|exact Hk]. simpl.
+      destruct (dec_members num F decf fs ms2 vs) as [[a b]| |]; reflexivity.
+    - simpl. destruct (upd_slot num F decf _ j1 fs vs) as [[a b]| |]; simpl; try reflexivity.
+      rewrite IH. reflexivity.
+  Qed.
+
+  Lemma unknown_member_ignored fs ms1 k j ms2 :
+    (forall fd, In fd fs -> eqfold k (fd_json fd) = false) ->
+    unmarshal num F int_of_num flt_of_num fzero (TStruct fs) (JvObj (ms1 ++ (k, j) :: ms2))
+    = unmarshal num F int_of_num flt_of_num fzero (TStruct fs) (JvObj (ms1 ++ ms2)).
+  Proof.
+    intro Hk. unfold unmarshal. simpl. rewrite dec_members_skip; [reflexivity | exact Hk].
+  Qed.
+End Unknown.
+
+(* premises of the stats theorem are satisfiable on a non-trivial value *)
+Definition transport1 : gval Z :=
+  match stats_zero Z c_fzero TransportStats "transport" "" with
+  | GStruct vs => GStruct (set_member Z "iceRole" (GInt 2) (shape_of TransportStats)
+                          (set_member Z "bytesSent" (GInt 18446744073709551615) (shape_of TransportStats) vs))
+  | o => o
+  end.
+Lemma transport1_ok :
+  has_type Z (stats_fty TransportStats) transport1 /\ own_tag Z TransportStats transport1 /\
+  lossless Z c_fzero c_fis_zero (stats_fty TransportStats) transport1 /\
+  c_stats_roundtrip TransportStats transport1 = Ok (TransportStats, transport1).
+Proof.
+  split; [|split; [|split]].
+  - vm_compute. repeat split;
+      solve [ exists (E_ICERole, icerole_dec); split; [reflexivity | simpl; tauto]
+            | exists (E_DTLSTransportState, dtlstransportstate_dec); split; [reflexivity | simpl; tauto]
+            | exists (E_ICETransportState, icetransportstate_dec); split; [reflexivity | simpl; tauto] ].
+  - exists None. split; [vm_compute; tauto | exact I].
+  - split.
+    + vm_compute. repeat split; try discriminate;
+        try (intros ed Hed; inversion Hed; subst; intros [_ Hr]; discriminate Hr).
+    + vm_compute. repeat split.
+  - vm_compute. reflexivity.
+Qed.
